@@ -20,4 +20,4 @@ def run(ctx):
     system.validate(ctx, t, ["TrLife"], "client engine (Dial / Enroll), life cycle")
     ctx.assumptions += system.SYS_ASSUME
     return vlib.finish(ctx, "model_checking",
-                       "one case = one engine life (6 configurations {LT, ET, ET+chunk} x {tcp, unix} per round, random loops / reuse-port / buffer sizes) with 6-11 scripted connections each, plus 6 client-engine lives (gnet.Client dialling / enrolling connections to listening peers): segmentations (1 byte, exactly the read buffer, bursts, data+FIN), consumption policies (Read/Next/Peek+Discard/Discard/WriteTo, lazy, peek-only); every event validated by TrLife.tla (open once, close once iff opened, nothing after close, nil error iff local close, async on closed connections, count at quiescence, confinement)")
+                       "one case = one engine life (6 configurations {LT, ET, ET+chunk} x {tcp, unix} per round, random loops / reuse-port / buffer sizes) with 6-11 scripted connections each, plus 6 client-engine lives (gnet.Client dialling / enrolling connections to listening peers): segmentations (1 byte, exactly the read buffer, bursts, data+FIN), consumption policies (Read/Next/Peek+Discard/Discard/WriteTo, lazy, peek-only); every event validated by TrLife.tla (open once, close once iff opened, nothing after close, nil error iff local close, async on closed connections, writes refused after EventLoop.Close inside the callback even when a foreign socket has taken the descriptor number, a close re-entered from OnClose is a no-op, count at quiescence, confinement)")
